@@ -8,10 +8,13 @@ E1: ape()/rpe() result assembly over relation x unit x delta lattices.
 """
 import itertools
 import math
+import os
+import tempfile
 
 import numpy as np
 
 from mc import common
+from mc.engine import cli
 from mc.engine.core import Acc, pmap_acc, shard
 from mc.refmodel import geom
 
@@ -452,6 +455,76 @@ def shard_assembly(cases):
     return acc
 
 
+PLOT_OPTS = [
+    ["--save_plot", "p.png"],
+    ["--save_plot", "p.png", "--plot_colormap_max_percentile", "90"],
+    ["--save_plot", "p.pdf", "--plot_colormap_max", "0.5",
+     "--plot_colormap_min", "0.1"],
+    ["--serialize_plot", "p.ser", "--plot_colormap_max_percentile", "50",
+     "--plot_mode", "xz"],
+    ["--save_plot", "p.png", "--plot_x_dimension", "distances"],
+]
+
+
+def shard_plot_cli(cases):
+    """a result saved by evo_ape / evo_rpe is the same with and without the
+    plot options (plotting reads the result, it does not edit it): every
+    array and statistic bit for bit"""
+    from evo.tools import file_interface
+    from mc.checks import c15
+    acc = Acc()
+    wd = tempfile.mkdtemp(dir=os.getcwd(), prefix="c12p_")
+    old = os.getcwd()
+    os.chdir(wd)
+    try:
+        c15.write_fixture(wd)
+        for tool, k in cases:
+            base = ["tum", "ref.txt", "est1.txt", "-a", "--no_warnings"]
+            if tool == "rpe":
+                base += ["--delta", "2", "--delta_unit", "f", "--all_pairs"]
+            out = {}
+            for name, extra in (("plain", []), ("plot", PLOT_OPTS[k])):
+                z = "r_%s.zip" % name
+                if os.path.exists(z):
+                    os.remove(z)
+                res = cli.run_cli(tool, base + ["--save_results", z] + extra)
+                if not res.ok:
+                    out[name] = "failed: %s %s" % (res.outcome(), res.exc)
+                else:
+                    out[name] = file_interface.load_res_file(z)
+            acc.count("evaluations")
+            acc.count("transitions", 2)
+            acc.count("nontrivial")
+            acc.outcome("plot-cli:" + tool)
+            case = {"tool": tool, "plot_opts": PLOT_OPTS[k]}
+            msgs = []
+            if isinstance(out["plain"], str) or isinstance(out["plot"], str):
+                msgs.append("evo_%s %s" % (tool, [v for v in out.values()
+                                                 if isinstance(v, str)]))
+            else:
+                a, b = out["plain"], out["plot"]
+                if set(a.np_arrays) != set(b.np_arrays):
+                    msgs.append("arrays differ: %s vs %s" % (
+                        sorted(a.np_arrays), sorted(b.np_arrays)))
+                else:
+                    for key in a.np_arrays:
+                        if np.asarray(a.np_arrays[key]).tobytes() != \
+                                np.asarray(b.np_arrays[key]).tobytes():
+                            msgs.append(
+                                "array %s of the saved result differs when "
+                                "the run also plots (%s): the values no "
+                                "longer belong to the poses of the companion "
+                                "arrays" % (key, " ".join(PLOT_OPTS[k])))
+                if a.stats != b.stats:
+                    msgs.append("statistics differ when the run also plots")
+            if msgs:
+                acc.violation("plot-cli", "; ".join(msgs[:2]), case,
+                              {"kind": "plot-cli"})
+    finally:
+        os.chdir(old)
+    return acc
+
+
 def run(ctx):
     acc = pmap_acc(ctx, __name__, "shard_stats",
                    [([f], ctx.pick(5, 6), ctx.thorough)
@@ -470,6 +543,9 @@ def run(ctx):
     acc.merge(u)
     acc.merge(pmap_acc(ctx, __name__, "shard_assembly",
                        shard(assembly_cases(), 32)))
+    acc.merge(pmap_acc(ctx, __name__, "shard_plot_cli",
+                       [[(tool, k)] for tool in ("ape", "rpe")
+                        for k in range(len(PLOT_OPTS))]))
     acc.counters["states"] = acc.counters["evaluations"]
     acc.rule = (
         "statistics: every array of length 1..%d over %s%s; unit machine: "
@@ -495,6 +571,10 @@ def replay(part, case):
         m = metrics.APE(metrics.PoseRelation.translation_part)
         m.error = np.array(case["array"])
         return check_stats(m)
+    if part == "plot-cli":
+        a = shard_plot_cli([(case["tool"], PLOT_OPTS.index(
+            list(case["plot_opts"])))])
+        return [v["msg"] for v in a.violations]
     if part == "units":
         return run_unit_path(case["kind"], case["relation"], case["path"])[0]
     return run_assembly(case)[0]
